@@ -491,6 +491,59 @@ func Wake(obj interface{}) {
 	}
 }
 
+// OthersAlive reports whether another harness thread is unfinished.
+func OthersAlive() bool {
+	r := active.Load()
+	t := Cur()
+	if r == nil || t == nil {
+		return false
+	}
+	for _, o := range r.threads {
+		if o != t && !o.done {
+			return true
+		}
+	}
+	return false
+}
+
+// Go replaces a `go` statement of rewritten code (rewriter flag g): when the
+// caller is a harness thread the new goroutine becomes a harness thread of the
+// running execution (enabled immediately, started when the explorer picks it);
+// otherwise it is a plain goroutine.
+func Go(fn func()) {
+	t := Cur()
+	if t == nil {
+		go fn()
+		return
+	}
+	r := active.Load()
+	nt := &Thread{ID: len(r.threads), Name: fmt.Sprintf("%s.go%d", t.Name, len(r.threads)), Member: t.Member, wake: make(chan struct{}, 1)}
+	r.threads = append(r.threads, nt)
+	reg := make(chan struct{})
+	go func() {
+		nt.goid = goid()
+		reg <- struct{}{}
+		<-nt.wake
+		defer func() {
+			if e := recover(); e != nil {
+				if _, ok := e.(abortT); !ok {
+					if r.Failure == "" {
+						r.Failure = fmt.Sprintf("panic: %v", e)
+						r.PanicStk = string(debug.Stack())
+					}
+					r.aborted = true
+				}
+			}
+			r.finish(nt)
+		}()
+		if r.aborted {
+			return
+		}
+		fn()
+	}()
+	<-reg
+}
+
 // Atomic runs fn without scheduling points (a macro step).
 func Atomic(fn func()) {
 	t := Cur()
